@@ -61,6 +61,9 @@ func TestVerif_C01dev(t *testing.T) {
 				fmt.Printf("        n%d %-70s -> %v\n", sub.node, sub.event, sub.acts)
 			}
 		}
+		for _, m := range out.equivoc {
+			fmt.Printf("        EQUIVOCATION %s\n", m)
+		}
 		if out.panicMsg != "" {
 			fmt.Printf("        PANIC %s\n", out.panicMsg)
 		}
